@@ -6,6 +6,7 @@ the line protocol is stateless.
 import GT.Base.JsonQ
 import GT.Model.Rep
 import GT.Lemmas.Rep
+import GT.Model.QI
 open Lean GT.J GT GT.RepW
 namespace GT.Driver.C05
 
@@ -20,6 +21,24 @@ structure RingIO (K : Type) [CommRing K] [Inhabited K] where
 
 def qIO : RingIO ℚ := ⟨J.toQ, ofQ, fun A => Rep.invertG A, some (1 / 2), id⟩
 def zIO : RingIO ℤ := ⟨int, fun z => .str (toString z), fun A => Rep.invertZG A, none, Int.cast⟩
+
+/-- a Gaussian rational travels as the string `"re|im"` (or as a plain rational) -/
+def parseQI (j : Json) : J.R QI :=
+  match j with
+  | .str s =>
+    match s.splitOn "|" with
+    | [re, im] => do pure ⟨← parseQStr re, ← parseQStr im⟩
+    | _ => do pure ⟨← parseQStr s, 0⟩
+  | _ => do pure ⟨← J.toQ j, 0⟩
+
+def outQI (z : QI) : Json :=
+  match ofQ z.re, ofQ z.im with
+  | .str a, .str b => .str (a ++ "|" ++ b)
+  | a, _ => a
+
+/-- ℚ(i): the exact execution domain for complex generator matrices -/
+def cIO : RingIO QI :=
+  ⟨parseQI, outQI, fun A => Rep.invertG A, some ⟨1 / 2, 0⟩, QI.re⟩
 
 section
 variable {K : Type} [CommRing K] [Inhabited K] (io : RingIO K)
@@ -135,6 +154,7 @@ end
 def runOp (j : Json) : J.R Json := do
   match (fieldD j "ring" (.str "Q")) with
   | .str "Z" => run zIO j
+  | .str "C" => run cIO j
   | _ => run qIO j
 
 /-! ### `utils/words.py` -/
